@@ -5,6 +5,7 @@ from props.common import *
 from props import dwtfam
 
 ID = 'C07'
+GRAD_MODES = True
 PROPS_MODULE = 'Props.C07'
 THEOREMS = ['C07_ana_linear', 'C07_ana_per_linear', 'C07_syn_linear', 'C07_syn_per_linear', 'C07_slice_afb_zero',
             'C07_DWT1DForward_linear', 'C07_DWT1DInverse_linear', 'C07_DWTForward_linear', 'C07_DWTInverse_linear', 'C07_SWTForward_linear',
@@ -37,18 +38,24 @@ def corr_jobs(tier, rng):
     yield dict(name='model_vs_impl', module='Run.RunDwt', runner='run_dwt', cases=cs, against='impl')
 
 
-def transforms():
+def transforms(sib=False):
+    """sib=True: the SIBLING of every transform - same kind, same filter lengths, different filter values (the taps doubled; for the
+    DTCWT the 10-tap q-shift family exchanged) - used to put a different filter bank of the same layout through the code first"""
     from pytorch_wavelets import DWTForward, DWTInverse, DTCWTForward, DTCWTInverse, DWT1DForward, DWT1DInverse
     from pytorch_wavelets.dwt.transform2d import SWTForward
     flat = lambda o: [t for t in (o if isinstance(o, (list, tuple)) else [o]) for t in ([t] if torch.is_tensor(t) else list(t))]
+    def wv(name, rec=False):
+        if not sib: return name
+        w = pywt.Wavelet(name)
+        return tuple(2.0 * np.array(f) for f in ((w.rec_lo, w.rec_hi) if rec else (w.dec_lo, w.dec_hi)))
     T = {}
     for mode in MODES5:
-        T['dwt1d/' + mode] = (lambda x, m=mode: flat(DWT1DForward(J=2, wave='db3', mode=m)(x)), 3)
-        T['dwt2d/' + mode] = (lambda x, m=mode: flat(DWTForward(J=2, wave='bior2.4', mode=m)(x)), 4)
-        T['idwt1d/' + mode] = (lambda x, m=mode: [DWT1DInverse(wave='db3', mode=m)((x[..., :x.shape[-1] // 2], [x[..., x.shape[-1] // 2: 2 * (x.shape[-1] // 2)]]))], 3)
-        T['idwt2d/' + mode] = (lambda x, m=mode: [DWTInverse(wave='db2', mode=m)((x, [torch.stack([x * 2, x.flip(-1), x.flip(-2)], 2)]))], 4)
-    T['swt/periodization'] = (lambda x: flat(SWTForward(J=2, wave='db2')(x)), 4)
-    for b, q in (('near_sym_a', 'qshift_a'), ('antonini', 'qshift_c'), ('near_sym_b', 'qshift_b')):
+        T['dwt1d/' + mode] = (lambda x, m=mode: flat(DWT1DForward(J=2, wave=wv('db3'), mode=m)(x)), 3)
+        T['dwt2d/' + mode] = (lambda x, m=mode: flat(DWTForward(J=2, wave=wv('bior2.4'), mode=m)(x)), 4)
+        T['idwt1d/' + mode] = (lambda x, m=mode: [DWT1DInverse(wave=wv('db3', True), mode=m)((x[..., :x.shape[-1] // 2], [x[..., x.shape[-1] // 2: 2 * (x.shape[-1] // 2)]]))], 3)
+        T['idwt2d/' + mode] = (lambda x, m=mode: [DWTInverse(wave=wv('db2', True), mode=m)((x, [torch.stack([x * 2, x.flip(-1), x.flip(-2)], 2)]))], 4)
+    T['swt/periodization'] = (lambda x: flat(SWTForward(J=2, wave=wv('db2'))(x)), 4)
+    for b, q in (('near_sym_a', 'qshift_06' if sib else 'qshift_a'), ('antonini', 'qshift_c'), ('near_sym_b', 'qshift_b')):
         T['dtcwt/%s' % b] = (lambda x, b=b, q=q: flat(DTCWTForward(J=3, biort=b, qshift=q)(x)), 4)
         def inv(x, b=b, q=q):
             yl, yh = DTCWTForward(J=2, biort=b, qshift=q)(torch.zeros_like(x))
@@ -69,7 +76,8 @@ def transforms():
 def oracle_cases(tier, rng):
     names = list(transforms().keys())
     for nm in names:
-        for chk in ('zero', 'super', 'slice', 'slice_sparse'):
+        for chk in ('zero', 'super', 'slice', 'slice_sparse', 'slice_primed'):
+            if chk == 'slice_primed' and (nm.split('/')[0] in ('dtcwt', 'idtcwt') and 'near_sym_a' not in nm): continue
             for rep in range(2 if tier == 'quick' else 5):
                 H, W = [(16, 24), (13, 18), (20, 16), (32, 32), (9, 28)][rep % 5]
                 if nm.startswith(('dtcwt', 'idtcwt', 'swt')):
@@ -105,6 +113,13 @@ def oracle_run(cfg):
             if shp[0] * shp[1] < 2:
                 shp = (2, 2) + tuple(shp[2:]); x = torch.tensor(r.standard_normal(shp))
             x[0, 0] = 0.0
+        if cfg['check'] == 'slice_primed':
+            # a different filter bank of the same layout (lengths, channel count, dtype) goes through the code first, on the whole batch only
+            if shp[1] < 2:
+                shp = (shp[0], 2) + tuple(shp[2:]); x = torch.tensor(r.standard_normal(shp))
+            fresh_import()                                   # module-level state as in a new process: the sibling is the first user of this layout
+            transforms(sib=True)[cfg['transform']][0](x)
+            f, nd = transforms()[cfg['transform']]
         full = f(x)
         for n in range(shp[0]):
             for c in range(shp[1]):
